@@ -175,6 +175,8 @@ class Inventory:
                     self.file_rows[p] = parquet_rows(self.files[p])
                     self.rows += self.file_rows[p]
         self.roles: Dict[str, str] = {self.meta: "meta"}
+        if HINT_PATH in self.files:
+            self.roles[HINT_PATH] = "pointer"       # not "reachable from the snapshot": only transient faults are injected
         if self.list is not None:
             self.roles[self.list] = "list"
         self.roles.update({m: "manifest" for m in self.manifests})
@@ -361,20 +363,27 @@ class Instr:
         return wrapped
 
 
+def row_id(r: Dict[str, Any]) -> int:
+    """The row's identity: its `id` column (under whatever name a damaged-but-parsing footer gives it)."""
+    if "id" in r:
+        return r["id"]
+    return next((v for v in r.values() if isinstance(v, int)), -1)
+
+
 def run_api(table, api: str, verify: bool, flt: Optional[Dict[str, Any]] = None) -> Dict[str, Any]:
     """Returns {"ok": bool, "rows"/"count", "yielded", "exc", "kind"}."""
     got: List[int] = []
     try:
         if api == "Scan":
-            got = [r["id"] for r in table.scan(verify_checksums=verify, filter=flt)]
+            got = [row_id(r) for r in table.scan(verify_checksums=verify, filter=flt)]
         elif api == "ScanPar":
-            got = [r["id"] for r in table.scan(parallel=2, verify_checksums=verify, filter=flt)]
+            got = [row_id(r) for r in table.scan(parallel=2, verify_checksums=verify, filter=flt)]
         elif api == "Batches":
             for b in table.scan_batches(batch_size=BATCH["Batches"], verify_checksums=verify, filter=flt):
-                got.extend(r["id"] for r in b)
+                got.extend(row_id(r) for r in b)
         elif api == "IterRecords":
             for r in table.iter_records(verify_checksums=verify, filter=flt):
-                got.append(r["id"])
+                got.append(row_id(r))
         elif api == "RowCount":
             return {"ok": True, "count": table.row_count(), "yielded": []}
         else:
@@ -457,25 +466,36 @@ def classify(kind: str, b: bytes) -> Any:
                     raise ValueError("file_format")
                 out.append((df["file_path"], df["record_count"], df.get("checksum")))
             res = ("ok", out)
+        elif kind == "parquet:scan":
+            # one-shot read as scan() does it: read_table, then concat with the other files' tables, then to_pylist.
+            # ("fail", [], late): late = the file itself reads, the failure comes after every file has been read
+            import pyarrow as pa
+            import pyarrow.parquet as pq
+            try:
+                t = pq.read_table(io.BytesIO(b))
+            except Exception:
+                t = None
+            if t is None:
+                res = ("fail", [], False)
+            elif not t.schema.equals(pa.schema([("id", pa.int64()), ("s", pa.string())]), check_metadata=False):
+                res = ("fail", [], True)            # pa.concat_tables refuses the odd schema
+            else:
+                try:
+                    res = ("ok", [row_id(r) for r in t.to_pylist()])
+                except Exception:
+                    res = ("fail", [], True)        # to_pylist() of the combined table fails
         elif kind.startswith("parquet:"):
+            import pyarrow as pa
             import pyarrow.parquet as pq
             bs = int(kind.split(":")[1])
             got: List[int] = []
             try:
                 pf = pq.ParquetFile(io.BytesIO(b))
                 for batch in pf.iter_batches(batch_size=bs):
-                    got.extend(batch.column("id").to_pylist())
+                    got.extend(row_id(r) for r in pa.Table.from_batches([batch]).to_pylist())
                 res = ("ok", got)
             except Exception:
-                res = ("fail", got)
-            # the one-shot reader must agree on success/failure
-            try:
-                whole = parquet_rows(b)
-                if res[0] != "ok" or whole != res[1]:
-                    res = ("mixed", res, whole)
-            except Exception:
-                if res[0] == "ok":
-                    res = ("mixed", res, None)
+                res = ("fail", got, False)
         elif kind == "meta":
             from datashard.metadata_manager import MetadataManager
             d = json.loads(b.decode("utf-8"))
@@ -564,11 +584,14 @@ def damages_for(inv: Inventory, path: str, tier: str, rng: random.Random) -> Lis
     role = inv.roles[path]
     orig = inv.files[path]
     n = len(orig)
+    if role == "pointer":
+        return [{"name": f"transient:{op}:{occ}", "class": "transient", "writes": {}, "fault": (path, op, occ, "call")}
+                for op, occ in (("OpExists", 0), ("OpRead", 0), ("OpExists", 1), ("OpRead", 1))]
     out: List[Dict[str, Any]] = [{"name": "delete", "class": "absent", "writes": {path: None}}]
     bounds = {"meta": json_boundaries, "list": avro_boundaries, "manifest": avro_boundaries, "data": parquet_boundaries}[role](orig)
     offs = set([0, 1, n // 2, n - 1] + bounds + [b - 1 for b in bounds if b > 1])
     if tier == "thorough":
-        offs |= set(range(0, n, max(1, n // 48)))
+        offs |= set(range(0, n, max(1, n // 24)))
     else:
         offs |= set(rng.sample(range(n), min(3, n)))
     for o in sorted(x for x in offs if 0 <= x < n):
@@ -579,7 +602,7 @@ def damages_for(inv: Inventory, path: str, tier: str, rng: random.Random) -> Lis
     out.append({"name": "text", "class": "replace", "writes": {path: b"not a table file\n"}})
     flips = set([0, 3, n // 3, n // 2, n - 5, n - 1] + [b for b in bounds if b < n])
     if tier == "thorough":
-        flips |= set(range(0, n, max(1, n // 64)))
+        flips |= set(range(0, n, max(1, n // 32)))
     for o in sorted(x for x in flips if 0 <= x < n):
         out.append({"name": f"flip@{o}", "class": "flip", "writes": {path: orig[:o] + bytes([orig[o] ^ 0xFF]) + orig[o + 1:]}})
     for sib in inv.siblings(path):
@@ -666,7 +689,7 @@ class ModelCtx:
     def dfiles(self, ds: List[Tuple[str, int, Optional[str]]]) -> str:
         return "[" + "; ".join(f"{{| dpath := {self.K(p)}; dcount := ({c})%Z; dsum := {self.sha_of_hex(h)} |}}" for p, c, h in ds) + "]"
 
-    def entries(self, b: bytes, batch: int) -> Dict[str, str]:
+    def entries(self, b: bytes, batch: Any) -> Dict[str, Any]:
         """One table entry per env component for byte string b."""
         i = self.B(b)
         e: Dict[str, str] = {"sha": f"({i}%N, {self.sha(b)})"}
@@ -687,12 +710,8 @@ class ModelCtx:
             r = classify(kind, b)
             e[nm] = f"({i}%N, Some {render(r[1])})" if r[0] == "ok" else f"({i}%N, None)"
         r = classify(f"parquet:{batch}", b)
-        if r[0] == "ok":
-            e["pq"] = f"({i}%N, PqOk {zlist(r[1])})"
-        elif r[0] == "fail":
-            e["pq"] = f"({i}%N, PqFail {zlist(r[1])})"
-        else:
-            e["pq"] = f"({i}%N, PqFail [])"
+        e["pq"] = f"({i}%N, PqOk {zlist(r[1])})" if r[0] == "ok" else f"({i}%N, PqFail {zlist(r[1])})"
+        e["late"] = bool(r[0] != "ok" and r[2])
         return e
 
 
@@ -726,8 +745,10 @@ def preamble(mc: ModelCtx) -> str:
     return "\n".join(out) + "\n"
 
 
-def model_expr(mc: ModelCtx, dmg: Dict[str, Any], recovered: Optional[str], api: str, verify: bool) -> str:
-    batch = BATCH.get(api, 2)
+def model_expr(mc: ModelCtx, dmg: Dict[str, Any], recovered: Optional[str], api: str, verify: bool) -> Tuple[str, bool]:
+    """The Coq expression for one case, and whether a damaged file fails only after the data stage (see classify)."""
+    batch = BATCH.get(api, "scan")
+    late = False
     cells = []
     ov: Dict[str, List[str]] = {c: [] for c in COMPONENTS}
     for p, b in dmg["writes"].items():
@@ -736,18 +757,16 @@ def model_expr(mc: ModelCtx, dmg: Dict[str, Any], recovered: Optional[str], api:
         else:
             cells.append(f"({mc.K(p)}, Present {mc.B(b)}%N)")
             e = mc.entries(b, batch)
+            late = late or e["late"]
             for c in COMPONENTS:
                 ov[c].append(e[c])
-    if api == "IterRecords":
-        # the undamaged files' parquet entries were measured with batch 2: identical when they parse
-        pass
     if dmg.get("fault"):
         p, op, occ, _mode = dmg["fault"]
         cells.append(f"({mc.K(p)}, Flaky ({op}, {occ}%nat) {mc.B(mc.inv.files[p])}%N)")
     rec = "None" if recovered is None else f"(Some {mc.K(recovered)})"
     env = "env_of " + rec + " " + " ".join("[" + "; ".join(ov[c]) + "]" for c in COMPONENTS)
     return (f"show (read_current ({env}) (store_of ([{'; '.join(cells)}] ++ base_store)) {api} "
-            f"{{| verify := {'true' if verify else 'false'} |}})")
+            f"{{| verify := {'true' if verify else 'false'} |}})"), late
 
 
 def parse_model(v: Any) -> Dict[str, Any]:
@@ -775,7 +794,8 @@ def recovered_by_scan(inv: Inventory) -> Optional[str]:
     return None if r is None else "metadata/" + r[1]
 
 
-def compare(mc: ModelCtx, api: str, impl: Dict[str, Any], trace: List[Tuple[str, str, int]], model: Dict[str, Any]) -> Optional[str]:
+def compare(mc: ModelCtx, api: str, impl: Dict[str, Any], trace: List[Tuple[str, str, int]], model: Dict[str, Any],
+            late: bool = False) -> Optional[str]:
     if impl["ok"] != model["ok"]:
         return f"outcome: impl {'returns' if impl['ok'] else 'raises ' + impl['exc']} / model {'Ok' if model['ok'] else 'Err ' + model['kind']}"
     if impl["ok"]:
@@ -805,6 +825,11 @@ def compare(mc: ModelCtx, api: str, impl: Dict[str, Any], trace: List[Tuple[str,
         if not set(i_data) <= set(m_data):
             return f"trace (data part): impl {i_data} not within model {m_data}"
         return None
+    if late and not impl["ok"] and api == "Scan":
+        # the damaged file reads as a table; scan() fails when it combines / converts the tables, after reading the rest
+        if it[:len(mt)] != mt:
+            return f"trace (late failure): model {mt} is not a prefix of impl {it}"
+        return None
     if it != mt:
         return f"trace: impl {it} / model {mt}"
     return None
@@ -822,6 +847,8 @@ REDUCED = ("delete", "random", "braces", "swap-sibling", "truncate@1")
 
 def run_table(ctx, path: str, shape: List[List[int]], tag: str, file_limit: Optional[int] = None,
               variant: Optional[str] = None, reduced: bool = False) -> None:
+    import time
+    t_start = time.time()
     inv = make_table(path, shape, variant)
     mc = ModelCtx(inv)
     rng = ctx.rng
@@ -836,6 +863,8 @@ def run_table(ctx, path: str, shape: List[List[int]], tag: str, file_limit: Opti
         targets = keep + rng.sample(rest, max(0, file_limit - len(keep)))
     # the undamaged table first: every API must return everything
     targets_dmgs: List[Tuple[str, str, Dict[str, Any]]] = [("", "none", {"name": "healthy", "class": "none", "writes": {}})]
+    if HINT_PATH in inv.roles:
+        targets = targets + [(HINT_PATH, "pointer")]
     for p, role in targets:
         for d in damages_for(inv, p, ctx.tier, rng):
             if reduced and not (d["name"] in REDUCED or d["class"] == "transient" or d.get("structural")):
@@ -863,7 +892,7 @@ def run_table(ctx, path: str, shape: List[List[int]], tag: str, file_limit: Opti
                     ck = f"{role}:{dmg['class']}"
                     stats[ck] = stats.get(ck, 0) + 1
                     ctx.count(1, (tag, p, dmg["name"], api, verify))
-                    case = {"table": tag, "shape": shape, "variant": variant, "role": role, "index": [q for q, r_ in inv.reachable() if r_ == role].index(p) if p else 0,
+                    case = {"table": tag, "shape": shape, "variant": variant, "role": role, "index": [q for q, r_ in inv.reachable() if r_ == role].index(p) if p and role != "pointer" else 0,
                             "damage": dmg["name"], "api": api, "verify": verify}
                     # ---------------- implementation-only oracle
                     answer_ok = impl["ok"] and ((api == "RowCount" and impl["count"] == len(healthy_rows))
@@ -888,7 +917,7 @@ def run_table(ctx, path: str, shape: List[List[int]], tag: str, file_limit: Opti
                         ctx.violation(KNOWN_KEY + f":{api}", f"current metadata file deleted: {api}(verify={verify}) returned "
                                       f"{impl.get('rows', impl.get('count'))} instead of raising (undamaged answer has {len(healthy_rows)} rows)",
                                       dict(case, got=impl))
-                    elif in_scope and touched and dmg["class"] == "transient" and answer_ok:
+                    elif in_scope and touched and dmg["class"] == "transient" and answer_ok and impl["ok"]:
                         # the failing call was retried through the other reader and the retry read everything: complete
                         # rows, nothing partial (only possible for legacy JSON manifests; Avro files fail the JSON retry)
                         retried = ctx.stats.setdefault("transient_swallowed_retry_read_everything", {})
@@ -906,7 +935,10 @@ def run_table(ctx, path: str, shape: List[List[int]], tag: str, file_limit: Opti
                     else:
                         lk = f"{role}:{dmg['class']}:" + ("raises" if not impl["ok"] else "full" if answer_ok else "other-rows")
                         labelled[lk] = labelled.get(lk, 0) + 1
-                    cases.append({"case": case, "impl": impl, "trace": list(ins.trace), "expr": model_expr(mc, dmg, recovered, api, verify)})
+                    expr, late = model_expr(mc, dmg, recovered, api, verify)
+                    if late and not verify:
+                        ctx.stats["late_failures_unverified"] = ctx.stats.get("late_failures_unverified", 0) + 1
+                    cases.append({"case": case, "impl": impl, "trace": list(ins.trace), "expr": expr, "late": late})
         finally:
             undo_damage(inv, dmg)
     ctx.sample({"table": tag, "shape": shape, "variant": variant, "files": {r: len([1 for _p, r2 in inv.reachable() if r2 == r]) for r in ("meta", "list", "manifest", "data")},
@@ -923,13 +955,14 @@ def run_table(ctx, path: str, shape: List[List[int]], tag: str, file_limit: Opti
     ctx.stats["json_not_avro_counterexamples"] = ctx.stats.get("json_not_avro_counterexamples", 0) + both
     if both:
         ctx.proof_problems.append(f"hypothesis json_not_avro fails on {both} byte string(s) of table {tag}")
-    mixed = sum(1 for (k, _b), v in _CLASSIFY.items() if k.startswith("parquet:") and v[0] == "mixed")
-    ctx.stats["parquet_reader_disagreements"] = mixed
     # ---------------- correspondence
-    got = coqbuild.coq_eval(REQ, [c["expr"] for c in cases], preamble=preamble(mc), chunk=150)
+    t_impl = time.time()
+    got = coqbuild.coq_eval(REQ, [c["expr"] for c in cases], preamble=preamble(mc), chunk=40)   # small chunks: coq_eval reads a chunk's stdout only after it exits (64 KB pipe)
+    ctx.stats.setdefault("timing_s", {})[tag] = {"cases": len(cases), "impl_and_oracle": round(t_impl - t_start, 1),
+                                                 "model_eval": round(time.time() - t_impl, 1)}
     bad = []
     for c, g in zip(cases, got):
-        why = compare(mc, c["case"]["api"], c["impl"], c["trace"], parse_model(g))
+        why = compare(mc, c["case"]["api"], c["impl"], c["trace"], parse_model(g), c["late"])
         if why:
             d = dict(c["case"], why=why)
             if c["case"]["role"] == "meta" and c["case"]["damage"] == "delete":
@@ -939,7 +972,7 @@ def run_table(ctx, path: str, shape: List[List[int]], tag: str, file_limit: Opti
 
 
 SHAPES_QUICK = [[[3, 2], [4, 1], [2, 3]]]
-SHAPES_THOROUGH = [[[3, 2], [4, 1], [2, 3]], [[1], [1], [1]], [[2, 2, 2], [5], [1, 1]], [[6], [3, 3]]]
+SHAPES_THOROUGH = [[[3, 2], [4, 1], [2, 3]], [[1], [1], [1]], [[2, 2, 2], [5]]]
 
 
 def oracle_filtered(ctx, path: str) -> None:
@@ -1010,6 +1043,49 @@ def oracle_fresh_handle(ctx, path: str) -> None:
     ctx.stats["fresh_handle_oracle_calls"] = n
 
 
+def oracle_options(ctx, path: str) -> None:
+    """Other call shapes of the same APIs: verification left to its default (must be ON), column projection,
+    batch size 1, parallel=True, and a generator that is only partly consumed before the damaged file is reached."""
+    from datashard.integrity import CorruptDataError
+    inv = make_table(path, [[2], [3]], None)
+    n = 0
+    calls = {
+        "scan()": lambda t: t.scan(),
+        "scan(columns=['s'])": lambda t: t.scan(columns=["s"]),
+        "scan(parallel=True)": lambda t: t.scan(parallel=True),
+        "scan_batches(batch_size=1)": lambda t: [r for b in t.scan_batches(batch_size=1) for r in b],
+        "scan_batches(columns=['id'])": lambda t: [r for b in t.scan_batches(columns=["id"]) for r in b],
+        "iter_records()": lambda t: list(t.iter_records()),
+        "iter_records(columns=['s'])": lambda t: list(t.iter_records(columns=["s"])),
+    }
+    for p, role in inv.reachable():
+        for dmg in damages_for(inv, p, "quick", ctx.rng):
+            if not (dmg["name"] in ("delete", "random", "swap-sibling") or dmg["name"].startswith("flip@")):
+                continue
+            if role != "data" and (dmg["class"] in ("flip", "swap") or (role == "meta" and dmg["class"] == "absent")):
+                continue
+            apply_damage(inv, dmg)
+            try:
+                for name, fn in calls.items():
+                    n += 1
+                    try:
+                        got = fn(open_handle(path))
+                        exc = None
+                    except Exception as e:  # noqa: BLE001
+                        got, exc = None, e
+                    if exc is None:
+                        ctx.violation(f"fail-open-option:{role}:{dmg['class']}:{name}", f"{role} file {dmg['name']}: {name} returned {len(got)} rows instead of raising",
+                                      {"role": role, "damage": dmg["name"], "call": name})
+                    elif role == "data" and dmg["class"] != "absent" and not isinstance(exc, CorruptDataError):
+                        ctx.violation(f"default-verification-off:{dmg['class']}:{name}",
+                                      f"data file {dmg['name']}: {name} raised {type(exc).__name__}, not CorruptDataError (verification must default to on)",
+                                      {"role": role, "damage": dmg["name"], "call": name})
+            finally:
+                undo_damage(inv, dmg)
+    ctx.count(n)
+    ctx.stats["option_oracle_calls"] = n
+
+
 # ====================================================================================== driver
 def run(ctx) -> None:
     logging.disable(logging.CRITICAL)
@@ -1028,7 +1104,8 @@ def run(ctx) -> None:
         "SHA-256 has no collision among the byte strings in play (hypothesis of C14_checksum)",
         "json_not_avro: bytes the JSON fallback accepts make the Avro attempt raise a fallback class (checked every run)",
         "a file is listed once per role (transient faults are identified by call site = (operation, occurrence))",
-        "pyarrow's one-shot and batched parquet readers agree on success/failure (counted every run)",
+        "what pyarrow makes of a byte string is measured per API family (one-shot read + concat + to_pylist for scan; "
+        "ParquetFile.iter_batches + to_pylist for the generators)",
     ]
     ctx.proofs(THEOREMS, gen_files=["GenRead.v"])
     ctx.allow_axioms([])
@@ -1046,6 +1123,7 @@ def run(ctx) -> None:
         ctx.proof_problems.append("model evaluation failed (variants): " + str(e)[:800])
     oracle_filtered(ctx, os.path.join(ctx.scratch, "tf"))
     oracle_fresh_handle(ctx, os.path.join(ctx.scratch, "th"))
+    oracle_options(ctx, os.path.join(ctx.scratch, "to"))
     shrink(ctx)
 
 
@@ -1054,7 +1132,7 @@ def execute_case(case: Dict[str, Any], path: str) -> Optional[Tuple[Dict[str, An
     inv = make_table(path, case["shape"], case.get("variant"))
     if case["damage"] == "healthy":
         return run_api(open_handle(path), case["api"], case["verify"]), inv, "(undamaged)"
-    files = [q for q, r in inv.reachable() if r == case["role"]]
+    files = [q for q, r in inv.reachable() if r == case["role"]] if case["role"] != "pointer" else [HINT_PATH]
     if not files:
         return None
     p = files[min(case.get("index", 0), len(files) - 1)]
